@@ -285,7 +285,7 @@ fn run(rep: &Report) {
     let bases = base_programs(&env);
     let fsets = flag_sets(thorough);
     let refs = ref_lists();
-    rep.set_rule("programs: (a) quoted spend lists = 2 puzzle kinds x ~108 condition letters, 8 failing puzzles, two-spend / double-spend / empty lists, 15 spend-tuple defects x spend-list terminator x output extension, 4 output shapes; (b) 11 procedural templates (cons-built lists, parent id / puzzle hash read from block references 1 and 2, apply, if on the deserialiser, raise, atom, path); each plainly serialised and back-reference compressed; x 4 block reference lists x all 32 flag subsets of {MEMPOOL_MODE, COST_CONDITIONS, SIMPLE_GENERATOR, LIMIT_SPENDS, INTERNED_GENERATOR} x limits {max block, c2, c2-1, c1, c1-1}; (c) deviation bound 1: every proper prefix and every single-byte substitution by {00,01,7f,80,fe,ff} of every base program of <= 200 bytes under 4 (quick) / 6 (thorough) flag sets; deviation bound 2 (two substitutions) on base programs of <= 24 (quick) / <= 64 (thorough) bytes. distinct = distinct (program bytes)");
+    rep.set_rule("programs: (a) quoted spend lists = 2 puzzle kinds x ~108 condition letters, 8 failing puzzles, two-spend / double-spend / empty lists, 15 spend-tuple defects x spend-list terminator x output extension, 4 output shapes; (b) 11 procedural templates (cons-built lists, parent id / puzzle hash read from block references 1 and 2, apply, if on the deserialiser, raise, atom, path); each plainly serialised and back-reference compressed; x 4 block reference lists x all 32 flag subsets of {MEMPOOL_MODE, COST_CONDITIONS, SIMPLE_GENERATOR, LIMIT_SPENDS, INTERNED_GENERATOR} x limits {max block, c2, c2-1, c1, c1-1}; (c) deviation bound 1: every proper prefix and every single-byte substitution by {00,01,7f,80,fe,ff} of every base program of <= 200 bytes under 4 (quick) / 6 (thorough) flag sets; deviation bound 2 (two substitutions) on base programs of <= 24 (quick) / <= 64 (thorough) bytes. thorough also: every recorded mainnet block (block-*) of /repo/generator-tests below 200 kB with single-byte substitutions at 256 evenly spaced positions. distinct = distinct (program bytes)");
     rep.assume("allowed asymmetry: legacy-only rejection with CostExceeded / TooManyPairs / TooManyAtoms / OutOfMemory / stack-limit errors");
 
     // base programs, all dimensions
@@ -394,6 +394,42 @@ fn run(rep: &Report) {
         }
         rep.distinct_many(loc.d);
     });
+    // thorough: recorded blocks as further seeds, substitutions at 256 evenly spaced positions
+    if thorough {
+        let corpus: Vec<_> = mc::corpus::generator_tests(200_000).into_iter().filter(|c| c.0.starts_with("block-")).collect();
+        rep.extra("corpus_generators", json!(corpus.len()));
+        let f0 = ConsensusFlags::DONT_VALIDATE_SIGNATURE;
+        corpus.par_iter().for_each(|(name, prog, refs)| {
+            let mut loc = Local { evals: 0, b: BTreeMap::new(), d: vec![] };
+            let mut variants: Vec<Vec<u8>> = vec![prog.clone()];
+            let step = (prog.len() / 256).max(1);
+            for i in (0..prog.len()).step_by(step) {
+                for s in subs {
+                    if prog[i] != s {
+                        let mut v = prog.clone();
+                        v[i] = s;
+                        variants.push(v);
+                    }
+                }
+            }
+            for v in &variants {
+                let case = json!({"program": hex::encode(v), "refs": refs.iter().map(hex::encode).collect::<Vec<_>>(), "flags": f0.bits(), "name": format!("corpus/{name}")});
+                let res = catch(|| check(v, refs, f0, false, &mut loc));
+                let _ = take_f7();
+                match res {
+                    Ok(Ok(r)) => *loc.b.entry(format!("corpus/{r}")).or_insert(0) += 1,
+                    Ok(Err((sig, d))) => rep.violation(&format!("C07/{sig}/corpus"), case, format!("corpus/{name}: {d}")),
+                    Err(p) => rep.violation("C07/panic", case, format!("corpus/{name}: {p}")),
+                }
+                loc.d.push(fxhash(v));
+            }
+            rep.evals(loc.evals);
+            for (k, n) in loc.b {
+                rep.outcome_n(&k, n);
+            }
+            rep.distinct_many(loc.d);
+        });
+    }
     rep.sample(json!({"program": "p/refs-ordered", "tree": format!("{:?}", bases.iter().find(|b| b.0 == "p/refs-ordered").unwrap().1), "refs": ["71..71", "72..72"]}));
     rep.sample(json!({"program": "q/struct/trunc3/nil", "meaning": "quoted spend list whose only spend tuple lacks the solution field"}));
 }
